@@ -168,8 +168,10 @@ class Oracle:
         return (conjunction if op == "and" else disjunction).compute(a, b)
 
     # ---- whole pipeline -----------------------------------------------------------------------------------
-    def contributions(self, engine, select=None):
-        """Returns (contrib: {output name: [(term, degree, implication)]}, degrees: {(block index, rule index): degree})"""
+    def contributions(self, engine, select=None, rejected=(), weights=None):
+        """Returns (contrib: {output name: [(term, degree, implication)]}, degrees: {(block index, rule index): degree});
+        rejected = (block index, rule index) of rules whose load the workload saw rejected: they are unloaded, whatever
+        the rule object says, and take no part; weights = {(block, rule): weight the workload gave the rule} (else the rule's own)"""
         fl = self.fl
         contrib = {ov.name: [] for ov in engine.output_variables}
         variables = {}
@@ -181,8 +183,12 @@ class Oracle:
                 continue
             parsed = []
             for ri, rule in enumerate(rb.rules):
+                if (bi, ri) in rejected:
+                    parsed.append((ri, rule, [], None))
+                    continue
                 tree, concl, _w = parse_rule(rule.text)
-                deg = rule.weight * self.evaluate(tree, variables, rb.conjunction, rb.disjunction, contrib) if rule.is_loaded() else None
+                w = weights.get((bi, ri), rule.weight) if weights else rule.weight
+                deg = w * self.evaluate(tree, variables, rb.conjunction, rb.disjunction, contrib) if rule.is_loaded() else None
                 parsed.append((ri, rule, concl, deg))
                 kind = type(rb.activation).__name__
                 if kind == "General" and deg is not None:
